@@ -2,7 +2,7 @@
 (* Histories of {memory-table changes, SET_LOG_BASE, writes} for C15, as stimuli; model-level sanity. *)
 EXTENDS DirtyLog, Json, TLC
 CONSTANT MaxDepth
-VARIABLES table, logS, hist, rej
+VARIABLES table, logS, hist, rej, logKey, stale, resent
 
 \* write classes: (offset class, length class) relative to the region
 WOff == {"0", "1", "4095", "end-1", "end-4096"}
@@ -16,8 +16,8 @@ Letters ==
     \cup {[op |-> "use_ring", rids |-> <<>>, rid |-> 0, S |-> 0, off |-> 0, wo |-> "", wl |-> ""]}
 
 SeqSet(L) == {L[i] : i \in 1..Len(L)}
-vars == <<table, logS, hist, rej>>
-Init == table = {} /\ logS = 0 /\ hist = <<>> /\ rej = FALSE
+vars == <<table, logS, hist, rej, logKey, stale, resent>>
+Init == table = {} /\ logS = 0 /\ hist = <<>> /\ rej = FALSE /\ logKey = <<0, 0>> /\ stale = FALSE /\ resent = FALSE
 Step(a) ==
     /\ Len(hist) < MaxDepth
     /\ (a.op = "write" => a.rid \in table)
@@ -28,11 +28,17 @@ Step(a) ==
     \* a refused SET_LOG_BASE while a log is in force changes nothing in the model -- but histories that pass through one
     \* are kept apart (rej is part of the view), because an implementation may leave something behind on that error path
     /\ rej' = (rej \/ (a.op = "set_log_base" /\ logS > 0 /\ LogVerdictAt(table, a.S, a.off) # "must_ok"))
+    \* the very window that is in force, sent again after the table has changed (a frontend re-sends its log on every (re)start):
+    \* the model's state after it equals one reached without the detour, so these histories are kept apart as well
+    /\ LET acc == a.op = "set_log_base" /\ LogVerdictAt(table, a.S, a.off) # "must_fail" IN
+       /\ logKey' = IF acc THEN <<a.S, a.off>> ELSE logKey
+       /\ stale' = IF acc THEN FALSE ELSE (stale \/ (logS > 0 /\ a.op \in {"set_mem_table", "add_mem_reg"}))
+       /\ resent' = (resent \/ (acc /\ stale /\ logS > 0 /\ logKey = <<a.S, a.off>>))
     /\ hist' = Append(hist, a)
     /\ ((a.op \in {"write", "use_ring", "set_log_base"} /\ (logS' > 0 \/ a.op = "set_log_base")) =>
             PrintT(<<"CASE", ToJson([steps |-> Append(hist, a)])>>))
 Next == \E a \in Letters : Step(a)
 Spec == Init /\ [][Next]_vars
 \* model-level: an accepted log always covers every page of the table it was accepted for
-View == <<table, logS, Len(hist), rej>>
+View == <<table, logS, Len(hist), rej, stale, resent, IF stale THEN logKey ELSE <<0, 0>>>>
 =============================================================================
